@@ -18,6 +18,7 @@ use std::{cmp, thread};
 use std::fs::{self, canonicalize, create_dir_all, read_link, File, Metadata};
 use std::path::{Path, PathBuf};
 use std::sync::Arc;
+use std::sync::atomic::{AtomicBool, Ordering};
 
 use crossbeam_channel as cbc;
 use libfs::{
@@ -38,6 +39,7 @@ pub struct CopyHandle {
     pub outfd: File,
     pub metadata: Metadata,
     pub config: Arc<Config>,
+    finalised: AtomicBool,
 }
 
 impl CopyHandle {
@@ -66,6 +68,7 @@ impl CopyHandle {
             outfd,
             metadata,
             config: config.clone(),
+            finalised: AtomicBool::new(false),
         };
 
         Ok(handle)
@@ -134,6 +137,18 @@ impl CopyHandle {
         Ok(total)
     }
 
+    /// Apply ownership, permissions and timestamps to the
+    /// destination and sync it if requested. Drivers call this once
+    /// all data has been written so that a failure can be reported;
+    /// `Drop` only falls back to it (and can merely log an error)
+    /// for handles that were never finalised.
+    pub fn finalise(&self) -> Result<()> {
+        if self.finalised.swap(true, Ordering::SeqCst) {
+            return Ok(());
+        }
+        self.finalise_copy()
+    }
+
     fn finalise_copy(&self) -> Result<()> {
         // Ownership first: chown(2) clears the set-user-ID and
         // set-group-ID bits, so it must precede the permissions copy.
@@ -157,7 +172,7 @@ impl CopyHandle {
 impl Drop for CopyHandle {
     fn drop(&mut self) {
         // FIXME: Should we check for panicking() here?
-        if let Err(e) = self.finalise_copy() {
+        if let Err(e) = self.finalise() {
             error!("Error during finalising copy operation {:?} -> {:?}: {}", self.infd, self.outfd, e);
         }
     }
